@@ -5,6 +5,7 @@ import (
 	"go/constant"
 	"go/token"
 	"go/types"
+	"os"
 	"strings"
 
 	"golang.org/x/tools/go/ssa"
@@ -478,9 +479,20 @@ func (w *World) lifetimeSources(v ssa.Value, at ssa.Instruction, req, msg *ssa.P
 				continue
 			}
 		}
+		// the request context copied as a whole (a stage object's embedded Request): the same
+		// struct value, with the field still to be selected
+		if len(l.sel) == 1 && len(l.frames) == 0 && l.mem == nil && w.key(l.val) == w.key(req) {
+			if st, ok := derefType(l.val.Type()).Underlying().(*types.Struct); ok && l.sel[0] < st.NumFields() && st.Field(l.sel[0]).Name() == "AllocationLifetime" {
+				nDef++
+				continue
+			}
+		}
 		if len(l.sel) == 0 && l.mem == nil && w.key(l.outer(w, l.val)) == w.key(req)+".AllocationLifetime" {
 			nDef++
 			continue
+		}
+		if os.Getenv("TURNCHECK_SRCDEBUG") != "" {
+			fmt.Fprintf(os.Stderr, "LIFESRC val=%T %s sel=%v frames=%d mem=%v\n", l.val, w.key(l.val), l.sel, len(l.frames), l.mem != nil)
 		}
 		if l.mem == nil || l.field == nil || l.field.Name() != "Duration" || l.clobber == nil {
 			bad = "a source is " + w.desc(l.val) + " (" + l.where + "), neither the configured default nor the decoded LIFETIME"
